@@ -47,7 +47,8 @@ def build():
             return VBound(obj, "get")
         if isinstance(obj, VU) and obj.sort == SRC and name == "source_registry_id":
             i = reg_id(obj.term)
-            m.ctx.assume(z3.Select(m.ctx.cell(m.global_syms["SIDX"].addr).value.term, i) == SM.opt.some(obj).term)  # registered by Source.__post_init__
+            # Source.__post_init__ registered this source or found an equal one registered: the index resolves to *some* source (an equal one)
+            m.ctx.assume(z3.Not(SM.opt.is_none(z3.Select(m.ctx.cell(m.global_syms["SIDX"].addr).value.term, i))))
             return VInt(i)
         if isinstance(obj, VCls) and obj.name == "Source" and name == "_source_idx_to_source":
             return m.global_syms["SIDX"]
